@@ -165,7 +165,7 @@ func runClose(p *Plan, tape *simrt.Tape, opt RunOpt) *RunOut {
 	d.fileProbes(fs)
 	out.addFS(fs)
 	out.FinalFS = fs
-	out.addProbes(d.Probes)
+	out.addDriver(d)
 	viol := cs.viol
 	if viol == nil {
 		viol = d.Viol
